@@ -69,6 +69,26 @@ def work(v):
             os.replace = os.rename = die
             pathlib.Path.replace = pathlib.Path.rename = die
             shutil.move = die
+        elif inj[0] == "after-rename":
+            # the save ran to its last file operation; the process dies right after it (before anything that only
+            # happens when the function returns / the interpreter cleans up)
+            import pathlib
+            real_os_replace, real_os_rename = os.replace, os.rename
+
+            def replace_then_die(*a, **k):
+                real_os_replace(*a, **k)
+                os.kill(os.getpid(), signal.SIGKILL)
+
+            def rename_then_die(*a, **k):
+                real_os_rename(*a, **k)
+                os.kill(os.getpid(), signal.SIGKILL)
+
+            def path_replace_then_die(self, target):
+                real_os_replace(self, target)
+                os.kill(os.getpid(), signal.SIGKILL)
+
+            os.replace, os.rename = replace_then_die, rename_then_die
+            pathlib.Path.replace = pathlib.Path.rename = path_replace_then_die
     return res
 
 
@@ -151,7 +171,29 @@ def real_case(case: dict) -> list:
         for step in case["script"]:
             before = _listing(cdir)
             log.write_text("")
-            if step[0] == "mutate":
+            if step[0] == "plant":
+                # files that are in the directory before the run: left by an older version, copied, damaged, stale
+                for k, vid, spec in keys:
+                    what = step[1].get(k)
+                    if what is None:
+                        continue
+                    name = _fname(rk[k])
+                    blob = pickle.dumps(build(vid, spec))
+                    if what[0] == "prefix":
+                        (cdir / name).write_bytes(blob[: what[1]])
+                    elif what[0] == "full":
+                        (cdir / name).write_bytes(blob)
+                    elif what[0] == "foreign":  # the complete pickle of ANOTHER input's result under this key's name
+                        ok, ovid, ospec = next(x for x in keys if x[0] == what[1])
+                        (cdir / name).write_bytes(pickle.dumps(build(ovid, ospec)))
+                    elif what[0] == "stale-tmp":  # the temporary of a process that died long ago
+                        (cdir / f"{name}.99999.tmp").write_bytes(blob[: what[1]])
+                    elif what[0] == "garbage":
+                        (cdir / name).write_bytes(b"\x00not a pickle")
+                    else:
+                        raise ValueError(what)
+                out.append({"fs": _obs_fs(cdir, keys, before, rk), "planted": len(step[1])})
+            elif step[0] == "mutate":
                 # the caller works on what the last run returned, in place (normalises a list, rescales a frame ...)
                 n = 0
                 for _, v in last:
@@ -206,6 +248,8 @@ def real_case(case: dict) -> list:
                     o = ["ok", [[back.get(k, repr(k)), _ident(keys, v)] for k, v in res]]
                 except (pickle.UnpicklingError, EOFError):
                     o = "error"
+                except pickle.PickleError:
+                    o = "error"
                 except OSError as e:  # the cache could not even be written
                     o = f"raised:{type(e).__name__}"
                 except Exception as e:  # noqa: BLE001  a complete run must not raise at all: report it as its outcome
@@ -231,8 +275,15 @@ def ops_of(n: int) -> list:
     return _OPS_CACHE[n]
 
 
+def ncuts(ops: list) -> int:
+    """number of kill points of one save: before each file operation, and after the last one when that is the rename"""
+    return len(ops) + (1 if ops and ops[-1] == "rename" else 0)
+
+
 def injection(ops: list, c: int):
     """the real fault that kills the process just before file operation number c (0-based) of the save"""
+    if c == len(ops) and ops and ops[-1] == "rename":
+        return ["after-rename"]  # every file operation done, killed before the save returns
     if c >= len(ops):
         return None
     k = ops[c]
@@ -257,6 +308,22 @@ def model_request(case: dict) -> dict:
             script.append(["crash", prog])
         elif step[0] == "mutate":
             script.append(["crash", []])  # the caller's own objects are not files: nothing happens to the cache
+        elif step[0] == "plant":
+            ents = []
+            for k, vid, spec in keys:
+                what = step[1].get(k)
+                if what is None or what[0] == "garbage":
+                    continue
+                if what[0] == "prefix":
+                    ents.append([k, "final", vid, what[1]])
+                elif what[0] == "full":
+                    ents.append([k, "final", vid, psize(vid, spec)])
+                elif what[0] == "foreign":
+                    ok, ovid, ospec = next(x for x in keys if x[0] == what[1])
+                    ents.append([k, "final", ovid, psize(ovid, ospec)])
+                elif what[0] == "stale-tmp":
+                    ents.append([k, "tmp", vid, what[1]])
+            script.append(["plant", ents])
         else:
             script.append(["run"])
     return {"op": "c19", "mode": "gen", "sizes": [[vid, psize(vid, spec)] for _, vid, spec in keys],
@@ -279,7 +346,10 @@ def model_obs(case: dict, resp: list) -> list:
                 fin.append([k, "absent"])
             else:
                 w, p = f
-                fin.append([k, "full" if (w == vid_of[k] and p >= sizes[w]) else ["prefix", p]])
+                if w != vid_of[k]:
+                    fin.append([k, ["other", p]])  # a file that holds (a prefix of) another input's result
+                else:
+                    fin.append([k, "full" if p >= sizes[w] else ["prefix", p]])
         tmp = dict((k, f) for k, f in r["fs"]["tmp"])
         # temporaries written DURING this step.  The model has one temporary per key (the real name carries the pid),
         # so a victim that re-creates the very same state is recognised by "it reached its save": no result file yet,
@@ -296,7 +366,10 @@ def model_obs(case: dict, resp: list) -> list:
         prev_tmp = tmp
         prev_fin = dict((k, st) for k, st in fin)
         o = {"fs": {"final": fin, "strays": strays}}
+        if r.get("history_ok") is False:
+            o["fs"]["history"] = "crashHistory disagrees with the step-by-step directory"  # shows up as drift
         if step[0] == "run":
+            o["sched"], o["uncached"] = r.get("sched"), r.get("uncached")
             o["out"] = r["out"]
             o["calls"] = sorted(r["calls"])
         out.append(o)
@@ -383,8 +456,8 @@ def gen_cases(ctx):
         for pos in range(3):
             others = [("int", 0), ("str", 12)]
             specs = others[:pos] + [spec] + others[pos:]
-            for c in range(nops):  # c = nops would be "not killed at all"
-                if pos != 1 and ctx.tier != "thorough" and n > 150 and c % 3:
+            for c in range(ncuts(ops_of(n))):  # c = nops: killed right after the last file operation (the rename)
+                if pos != 1 and ctx.tier != "thorough" and n > 150 and c % 3 and c != nops:
                     continue  # quick tier: every offset with the victim in the middle, every third at the ends
                 cases.append(seq_case(cid, specs, pos, c))
                 cid += 1
@@ -400,14 +473,14 @@ def gen_cases(ctx):
                 idx = rng.randrange(nk)
                 k, vid, spec = keys[idx]
                 ops = ops_of(psize(vid, spec))
-                c = rng.randrange(len(ops))
+                c = rng.randrange(ncuts(ops))
                 script.append(["seqcrash", {k: injection(ops, c)}, 0, {k: c}])
             else:
                 injs, cs = {}, {}
                 for idx in rng.sample(range(nk), rng.randint(1, min(3, nk))):
                     k, vid, spec = keys[idx]
                     ops = ops_of(psize(vid, spec))
-                    c = rng.randrange(len(ops))
+                    c = rng.randrange(ncuts(ops))
                     injs[k], cs[k] = injection(ops, c), c
                 script.append(["poolcrash", injs, rng.choice([2, 2, 16]), cs])
         script.append(["run", rng.choice([0, 2, 16])])
@@ -442,6 +515,19 @@ def gen_cases(ctx):
             case["realkeys"] = unusual_keys(rng, keys)
         cases.append(case)
         cid += 1
+    # files that are there before the run (seed-independent): truncated result files (what the pinned version left behind),
+    # another input's complete result under this key's name, bytes that are no pickle, a dead process's temporary
+    base = [("int", 0), ("str", 16), ("list", 5)]
+    n1 = psize(11, base[1])
+    for what, tag in [(["prefix", 0], "truncated"), (["prefix", 1], "truncated"), (["prefix", n1 // 2], "truncated"),
+                      (["prefix", n1 - 1], "truncated"), (["foreign", "k0"], "foreign"), (["foreign", "k2"], "foreign"),
+                      (["garbage"], "garbage"), (["stale-tmp", 3], None), (["stale-tmp", n1], None), (["full"], None)]:
+        for w in ((0, 2) if tag != "garbage" else (0,)):
+            case = {"id": cid, "keys": mk_keys(base), "script": [["plant", {"k1": what}], ["run", w], ["run", 0]]}
+            if tag:
+                case["foreign_files"] = tag
+            cases.append(case)
+            cid += 1
     # F-C19-2: keys the default file naming cannot hold apart / cannot write
     cases.append({"id": cid, "keys": mk_keys([("int", 0), ("str", 8)]), "realkeys": {"k0": ["s", "k_in/2"]},
                   "script": [["run", 0]]})
@@ -452,8 +538,9 @@ def gen_cases(ctx):
 
 # ----------------------------------------------------------------------------- verdicts
 def shape_of(case):
-    kinds = "+".join(s[0][:4] + (str(s[2]) if s[0] == "poolcrash" else "") if s[0] != "run" else f"run{s[1]}"
-                     for s in case["script"])
+    kinds = "+".join((s[0][:4] + (str(s[2]) if s[0] == "poolcrash" else "") + ("-" + "-".join(str(x) for v in s[1].values() for x in v)
+                                                                                     if s[0] == "plant" else ""))
+                     if s[0] != "run" else f"run{s[1]}" for s in case["script"])
     return f"{len(case['keys'])}keys:{kinds}"
 
 
@@ -478,12 +565,31 @@ def judge_case(ctx, case, R, M):
             m = None
         if step[0] == "mutate":
             continue
+        if step[0] == "plant":
+            continue
         if step[0] != "run":
             # interrupted run: nothing is promised about the files; this validates the model's crash states
             if m is not None and r["fs"] != m["fs"]:
                 ctx.add_drift(sub, r["fs"], m["fs"], f"files after interrupted run (step {i})")
             continue
         broken = any(isinstance(st, list) for _, st in (R[i - 1]["fs"]["final"] if i else []))
+        foreign = case.get("foreign_files")
+        if foreign == "garbage":
+            # bytes that are no pickle at all: outside the model; the run must say so, never return something
+            ctx.judge(sub, {"out": r["out"]}, {"out": "error"}, None, what="a result file that is no pickle: the run raises (nothing is served)")
+            continue
+        if foreign:
+            # a directory the shipped code cannot have produced (truncated result file of an older version, a copied
+            # file): nothing is promised; this validates the model's load branch (`loadError`, serve-what-is-there)
+            Rv = {"out": r["out"], "calls": r["calls"]}
+            Mv = None if m is None else {"out": m["out"], "calls": m["calls"]}
+            if Mv is not None and step[1] > 0 and Mv["out"] == "error":
+                Mv["calls"] = Rv["calls"]  # after a load error the pool still finishes other keys; only `out` is modelled
+            ctx.hist[f"foreign:{foreign}:{r['out'] if isinstance(r['out'], str) else 'served'}"] = ctx.hist.get(
+                f"foreign:{foreign}:{r['out'] if isinstance(r['out'], str) else 'served'}", 0) + 1
+            if Mv is not None and Rv != Mv:
+                ctx.add_drift(sub, Rv, Mv, f"complete run over planted {foreign} result files (step {i})")
+            continue
         S = {"out": all_ok, "calls": r["uncached_before"]}
         Rv = {"out": r["out"], "calls": r["calls"]}
         Mv = None if m is None else {"out": m["out"], "calls": m["calls"]}
@@ -496,6 +602,12 @@ def judge_case(ctx, case, R, M):
                   what=f"complete run (step {i}, workers={step[1]}) after {[s[0] for s in case['script'][:i]]}")
         if m is not None and Rv["out"] != "error" and r["fs"] != m["fs"]:
             ctx.add_drift(sub, r["fs"], m["fs"], f"files after complete run (step {i})")
+        if m is not None and m.get("sched") is not None and isinstance(Rv["out"], list) and m["out"] != "refused":
+            # the model's pool order (keys processed in reverse, reported in input order) and its uncached run, against
+            # what the real run (sequential or pool) returned
+            if m["sched"] != Rv["out"] or m["uncached"] != Rv["out"]:
+                ctx.add_drift(sub, Rv["out"], {"sched": m["sched"], "uncached": m["uncached"]},
+                              f"model's reverse-order schedule / uncached run vs the real results (step {i})")
 
 
 def evaluate(ctx, cases):
@@ -582,6 +694,110 @@ def dup_stratum(ctx):
             ok = {"refused", "same-as-uncached"}
             ctx.judge(case, "ok" if R in ok else R, "ok", None if M is None else ("ok" if M in ok else M),
                       what=f"repeated key with a cache: {R} (model: {M})")
+    shutil.rmtree(d, ignore_errors=True)
+
+
+# ----------------------------------------------------------------------------- file names of keys
+NAME_ALPHABET = ["a", "Z", "0", "9", "_", ".", "-", "~", "/", "\\", "%", " ", "'", '"', "\n", "\t", "\x00", "é", "α", "日",
+                 "🧪", ":", "*", "?", "+", "=", "&", "#", "(", ",", ")", "p", "2", "5", "F", "f"]
+NAME_SPECIALS = ["", "/", "..", ".", "%", "%25", "%2F", "a%2Fb", "a/b", "a\\b", "\x00", "\n", "ä", "🧪", "日本語", ".p", "x.p", "x.p.1.tmp",
+                 "~", "a~b", "x" * 300, "k" * 100 + "/" * 50, None, True, False, 0, 1, 1.0, -0.0, float("inf"), 10 ** 30, b"a/b", b"",
+                 (), (1,), (1, "1"), ("a/b", 2.5), ((1, 2), (3,)), frozenset(), frozenset({1})]
+_SPY_SEEN = []
+
+
+class _Spy:
+    """a payload that looks at the directory WHILE it is being pickled: that is when the temporary sibling exists"""
+
+    def __init__(self, d):
+        self.d = d
+
+    def __reduce__(self):
+        _SPY_SEEN.append(sorted(os.listdir(self.d)))
+        return (int, (0,))
+
+
+def hand_quote(text: str) -> str:
+    """percent-encoding written out by hand (oracle): UTF-8 bytes; ASCII letters, digits and _ . - ~ stay, every other
+    byte becomes %XX (upper-case hexadecimal)"""
+    keep = set(b"ABCDEFGHIJKLMNOPQRSTUVWXYZabcdefghijklmnopqrstuvwxyz0123456789_.-~")
+    return "".join(chr(b) if b in keep else "%" + "0123456789ABCDEF"[b // 16] + "0123456789ABCDEF"[b % 16] for b in text.encode("utf-8"))
+
+
+def names_stratum(ctx):
+    """`Cache().name_fn(key)` (R) vs the Lean `defaultName` under the generated scheme (M) vs a hand-written encoder (S),
+    byte for byte, over text with separators / percent signs / non-ASCII / control characters, numbers, tuples, bytes;
+    set-level: different keys never share a name, no name can leave the directory; and the REAL temporary name used by
+    `_pickle_save` (seen from inside the dump) vs the Lean `tmpName` with the generated constant parts."""
+    import re
+    from urllib.parse import unquote
+
+    from mxlpy.parallel import Cache
+    rng = ctx.rng
+    keys = [decode_key(ks) for ks in KEY_POOL] + list(NAME_SPECIALS)
+    for _ in range(ctx.n(300, 6000)):
+        keys.append("".join(rng.choice(NAME_ALPHABET) for _ in range(rng.choice([0, 1, 1, 2, 3, 5, 8, 12]))))
+    for _ in range(ctx.n(40, 600)):
+        keys.append(tuple(rng.choice([rng.choice(NAME_ALPHABET) * rng.randint(1, 3), rng.randint(-3, 3), rng.choice([0.5, 1e-3, 2.0])])
+                          for _ in range(rng.randint(1, 3))))
+    uniq, seen = [], set()
+    for k in keys:
+        ident = (type(k).__name__, repr(k))
+        if ident not in seen:
+            seen.add(ident)
+            uniq.append(k)
+    cache = Cache()
+    pid = os.getpid()
+    names = [cache.name_fn(k) for k in uniq]
+    Ms = [None] * len(uniq)
+    if ctx.driver_ok:
+        Ms = driver.call_batch([{"op": "c19", "name": {"str": list(str(k).encode("utf-8", "backslashreplace")),
+                                                      "repr": list(repr(k).encode("utf-8")), "pid": pid}} for k in uniq])
+    pat = re.compile(r"(?:%[0-9A-F]{2}|[A-Za-z0-9_.~-])*\.p")
+    hist = {}
+    for k, name, m in zip(uniq, names, Ms):
+        kind = type(k).__name__ + (":sep" if isinstance(k, str) and ("/" in k or "\\" in k) else "") + (
+            ":pct" if isinstance(k, str) and "%" in k else "") + (":nonascii" if isinstance(k, str) and not k.isascii() else "") + (
+            ":ctrl" if isinstance(k, str) and any(ord(c) < 32 for c in k) else "") + (":empty" if k == "" else "") + (
+            ":long" if len(name) > 255 else "")
+        hist[kind] = hist.get(kind, 0) + 1
+        case = {"name_of": repr(k), "type": type(k).__name__}
+        ctx.count(case, f"name:{kind}")
+        R = {"final": list(name.encode("utf-8")), "decodes_to_repr": unquote(name[:-2]) == repr(k), "alphabet": bool(pat.fullmatch(name))}
+        S = {"final": list((hand_quote(repr(k)) + ".p").encode()), "decodes_to_repr": True, "alphabet": True}
+        M = None if m is None else {"final": m["final"], "decodes_to_repr": m["decoded"] == list(repr(k).encode("utf-8")),
+                                    "alphabet": bool(m["safe"]) and bool(m["partsOk"])}
+        ctx.judge(case, R, S, M, what="file name of a key: percent-encoded repr + '.p', byte for byte")
+    ctx.extra_cov["name_kinds"] = dict(sorted(hist.items()))
+    # set level: different keys, different names; nothing can leave the directory
+    clash = [(repr(a), repr(b)) for i, (a, na) in enumerate(zip(uniq, names)) for b, nb in zip(uniq[:i], names[:i]) if na == nb] \
+        if len(set(names)) != len(names) else []
+    case = {"name_set": len(uniq)}
+    ctx.count(case, "name:set-level")
+    ctx.judge(case, {"clashes": clash[:3], "unsafe": [n for n in names if "/" in n or "\0" in n or "\\" in n][:3]},
+              {"clashes": [], "unsafe": []}, None, what="different keys never share a file name; no name holds a separator")
+    # the temporary sibling, observed from inside pickle.dump
+    d = SCRATCH / f"names-{pid}"
+    shutil.rmtree(d, ignore_errors=True)
+    d.mkdir(parents=True)
+    finals = set(names)
+    short = [(k, n, m) for k, n, m in zip(uniq, names, Ms) if len(n) < 200]
+    rng.shuffle(short)
+    for k, name, m in short[: ctx.n(60, 600)]:
+        del _SPY_SEEN[:]
+        before = set(os.listdir(d))
+        cache.save_fn(d / name, _Spy(d))
+        during = set(_SPY_SEEN[0]) - before if _SPY_SEEN else set()
+        after = set(os.listdir(d))
+        tmp = sorted(during - {name})
+        case = {"tmp_name_of": repr(k)}
+        ctx.count(case, "name:tmp")
+        R = {"tmp": [list(t.encode("utf-8")) for t in tmp], "is_a_result_name": any(t in finals for t in tmp),
+             "safe": not any("/" in t or "\0" in t for t in tmp), "left_behind": sorted(after - before - {name}), "final_written": name in after}
+        S = {"tmp": R["tmp"] if len(tmp) == 1 else ["exactly one temporary expected"], "is_a_result_name": False, "safe": True,
+             "left_behind": [], "final_written": True}
+        M = None if m is None else {"tmp": [m["tmp"]], "is_a_result_name": False, "safe": bool(m["safe"]), "left_behind": [], "final_written": True}
+        ctx.judge(case, R, S, M, what="temporary sibling of a save: one file, not a result name, renamed away afterwards")
     shutil.rmtree(d, ignore_errors=True)
 
 
@@ -673,6 +889,7 @@ def run(ctx):
             judge_case(ctx, c, R, M)
         scan_stratum(ctx)
         dup_stratum(ctx)
+        names_stratum(ctx)
     finally:
         shutil.rmtree(SCRATCH, ignore_errors=True)
     if not ctx.proof_ok or ctx.drift:
@@ -683,6 +900,12 @@ def replay(ctx, rp):
     case = rp["case"]
     if "scan" in case:
         scan_stratum(ctx)
+        return
+    if "name_of" in case or "tmp_name_of" in case or "name_set" in case:
+        names_stratum(ctx)
+        return
+    if "dup" in case:
+        dup_stratum(ctx)
         return
     case.setdefault("id", 0)
     Rs, Ms = evaluate(ctx, [case])
